@@ -82,3 +82,14 @@ Theorem C03_translated_source_proper_rotation_positive_scale_optimal :
   (ws = true -> forall c' R' t', SO3 R' -> 0 < c' -> resid c r t x y <= resid c' R' t' x y).
 Proof. exact umeyama_gen_spec. Qed.
 Print Assumptions C03_translated_source_proper_rotation_positive_scale_optimal.
+
+(* ---- centroids (added after every property had a check): the returned similarity maps the centroid of x onto the
+   centroid of y, hence the aligned points have the centroid of y ---- *)
+Theorem C03_returned_transform_maps_centroid_to_centroid : forall svd eps ws (x y : list V3R) r t c,
+  umeyama svd eps ws x y = Some (r, t, c) -> apply_sim c r t (mean x) = mean y.
+Proof. exact umeyama_maps_centroid. Qed.
+Print Assumptions C03_returned_transform_maps_centroid_to_centroid.
+Theorem C03_aligned_points_have_the_centroid_of_y : forall svd eps ws (x y : list V3R) r t c, x <> [] ->
+  umeyama svd eps ws x y = Some (r, t, c) -> mean (map (apply_sim c r t) x) = mean y.
+Proof. exact umeyama_aligned_mean. Qed.
+Print Assumptions C03_aligned_points_have_the_centroid_of_y.
